@@ -174,8 +174,17 @@ def body_cli(case, rec):
     classes = {"cli"}
     d = remap.scratch_dir("vf-c07-")
     try:
-        inp = d / "input.agp"
-        inp.write_text(remap.input_text(case, "agp"))
+        # the input goes in as TPF when TPF can carry it (plain gap types, no scaffold beginning or ending with a gap:
+        # a TPF gap line belongs to the scaffold before it)
+        tpf_able = all(r[2] in ("scaffold", "contig", "centromere") for _n, rows in case["input"] for r in rows if r[0] == "G") \
+            and all(rows and rows[0][0] == "F" and rows[-1][0] == "F" for _n, rows in case["input"])
+        if tpf_able and len(case["map"]) % 2:
+            inp = d / "input.tpf"
+            inp.write_text(remap.input_text(case, "tpf"))
+            classes.add("input_tpf")
+        else:
+            inp = d / "input.agp"
+            inp.write_text(remap.input_text(case, "agp"))
         mp = d / "map.agp"
         mp.write_text(remap.map_agp_text(case))
         # a third of the cases write TPF (gap types that TPF cannot carry unchanged are left to AGP)
